@@ -18,8 +18,12 @@ import tornado.locks, tornado.queues, tornado.gen, tornado.ioloop, tornado.platf
 
 ID = "C33"
 LEAN_TARGETS = ["TornadoModel.C33.Props"]
-THEOREMS = [
-]
+_T = "TornadoModel.C33."
+THEOREMS = [_T + n for n in (
+    "inv_after", "permits_conserved", "outstanding_le_initial", "bounded_value_le", "bounded_releases_le_grants",
+    "no_idle_permit", "no_lost_wakeup", "fifo_among_live", "dead_never_granted", "grant_only_live",
+    "bounded_release_raises", "lock_release_raises", "bounded_over_release_raises", "gc_preserves_abs",
+)]
 TRUSTED = [
     "asyncio event loop ordering as abstracted by the model's drain: ready callbacks (done-callbacks, FIFO) run before "
     "timers that are due; due timers fire in deadline order; Future.cancel/set_result/set_exception settle at most once",
@@ -36,7 +40,15 @@ RULE = ("op sequences (<=25 ops, <=8 acquires) over Semaphore/BoundedSemaphore/L
         "non-trivial = at least one waiter blocked and at least one of {timeout, cancel} and one grant by release happened; "
         "distinct by canonical JSON")
 EXHAUSTIVE = {"quick": True, "thorough": True}
-CLAUSES = {}
+CLAUSES = {
+    "granted and unreleased permits never exceed the initial value": "permits_conserved + outstanding_le_initial (+ bounded_value_le)",
+    "granted waiters are served in arrival order skipping only timed-out/cancelled ones": "fifo_among_live (+ inv_after: deque sorted by arrival)",
+    "a permit is never left unused while a live waiter waits": "no_idle_permit + no_lost_wakeup",
+    "timed-out or cancelled waiters never obtain one": "dead_never_granted + grant_only_live",
+    "releasing beyond the initial value (bounded) or an unlocked lock raises": "bounded_release_raises + lock_release_raises + bounded_over_release_raises + bounded_releases_le_grants",
+    "garbage collection of timed-out waiters is unobservable": "gc_preserves_abs",
+    "checked against a sequential reference model": "tie: Spec (sequential semaphore) is the oracle on every case; refinement theorem refines_spec: see docs/C33.md",
+}
 PARALLEL = True
 CASE_TIMEOUT = 120     # generous: on a loaded machine a forked worker's first case was measured at 6 s wall for 0.4 s CPU
 LEVEL_NOTE = ("exhaustive sub-domains: quick = every op sequence of length 3 over the 9-letter alphabet _ALPHA for 6 class/value "
